@@ -6,7 +6,7 @@ PID = "C04"
 
 
 def scenarios(rng, tier):
-    sc = T.fam_reorg(rng) + T.fam_completion(rng)
+    sc = T.fam_reorg(rng) + T.fam_completion(rng) + T.fam_midreorg(rng)
     sc += T.fam_random(rng, 10 if tier == "quick" else 120)
     if tier == "thorough":
         sc += T.fam_reorg(rng, deep=True)
@@ -21,4 +21,6 @@ RULE = 'reorg families: depth in {1,2,3,7} (thorough: 20, 100) x position of the
 def main(tier, replay=None):
     import mc_tower
     design = None if replay else mc_tower.design_stats(PID, tier)
-    return towercheck.run(PID, tier, replay, scenarios, RULE, towercheck.COMMON_ASSUMPTIONS, design_stats=design)
+    # "forgotten and its slots refunded when, and only when ...": the refund at the Responder's step belongs to this property too
+    return towercheck.run(PID, tier, replay, scenarios, RULE, towercheck.COMMON_ASSUMPTIONS, design_stats=design,
+                          extra_tags=lambda t: t["event"]["act"] == "RConnect" and t["prop"] == "C07")
